@@ -128,8 +128,12 @@ static void implChecks(Model& M, const ConsInfo& ci, vh::Rng& g, long caseNo, co
         }
         vh::P("pq_cols", K + ".pq_cols", w, 1e-10);
         Matrix PqtT = ~Pqt;
-        // observed outside the property: calcPqTranspose != ~calcPq when a constrained q is a quaternion component
-        if (!(relErrM(Pq, PqtT) <= 1e-10)) vh::D("obs.pqt_ne_pq_transpose." + T);
+        // calcPqTranspose vs ~calcPq: differs when a constrained q is a quaternion component (N*N^+ != 1): known finding, single
+        // key `qcons.pqt_is_transpose`; all other types keep their own key and must pass
+        {
+            const bool qcons = ci.type == cConstantCoordinate || ci.type == cCoordinateCoupler || ci.type == cPrescribedMotion || ci.type == cCustom;
+            vh::P("pqt_is_transpose", qcons ? std::string("qcons.pqt_is_transpose") : K + ".pqt_is_transpose", relErrM(Pq, PqtT), 1e-10);
+        }
         vh::P("pq_fd", lineTree ? std::string("line.pq_fd") : K + ".pq_fd", wfd, 1e-6);
         // Pq N == P (first mp rows of G)
         double wn = 0;
@@ -140,10 +144,13 @@ static void implChecks(Model& M, const ConsInfo& ci, vh::Rng& g, long caseNo, co
     {
         Vector bias; matter.calcBiasForAccelerationConstraints(s, bias);
         Vector z(nu, 0.0), a0; matter.calcConstraintAccelerationErrors(s, z, a0);
-        // observed outside the property (notes/C07.md): calcBiasForAccelerationConstraints passes qdotdot=0 for
-        // constrained q's, so it differs from aerr(udot=0) by the NDot*u term on mobilizers with qdot != u.
-        // Not a predicate of C07 (the property does not mention this operator); counted into the evidence only.
-        if (!(relErr(bias, a0) <= 1e-12)) vh::D("obs.bias_ne_aerr0." + T);
+        // calcBiasForAccelerationConstraints is documented as aerr at udot=0.  For constraints with constrained q's (key class
+        // `qcons`) on mobilizers with qdot != u it is not (it passes qdotdot=0 instead of NDot*u): known finding, single key
+        // `qcons.bias_is_aerr0`; every other constraint type keeps its own key and must pass.
+        {
+            const bool qcons = ci.type == cConstantCoordinate || ci.type == cCoordinateCoupler || ci.type == cPrescribedMotion || ci.type == cCustom;
+            vh::P("bias_is_aerr0", qcons ? std::string("qcons.bias_is_aerr0") : K + ".bias_is_aerr0", relErr(bias, a0), 1e-12);
+        }
         Vector lin = G * udot + a0;
         vh::P("aerr_affine", K + ".aerr_affine", relErr(lin, e0.pva), 1e-10);
         // [pverr;verr] is affine in u with the same matrix for the holonomic+nonholonomic rows whose V is u-independent;
